@@ -52,6 +52,9 @@ pub struct Sim {
     /// headers of the blocks we added ourselves (for removals): (header-pair before the block)
     pub prev_tips: Vec<Headers>,
     pub pending_muts_after_err: usize,
+    /// mutations reported by the last prepare() and the local store just before its commit()
+    pub last_muts: Vec<(String, (u64, Vec<u8>))>,
+    pub last_pre_commit: BTreeMap<String, (u64, Vec<u8>)>,
 }
 
 fn services(persister: Arc<dyn Persist>, clock: Arc<ManualClock>) -> NodeServices {
@@ -106,6 +109,8 @@ impl Sim {
         let r = std::panic::catch_unwind(std::panic::AssertUnwindSafe(|| f(self)));
         let muts = p.prepare();
         let n = muts.len();
+        self.last_pre_commit = self.store_dump();
+        self.last_muts = muts.into_inner();
         p.commit().expect("commit");
         let out = match r {
             Ok(Ok(_)) => Outcome::Ok,
@@ -161,6 +166,8 @@ impl Sim {
             hash_ctr: 0,
             prev_tips: vec![],
             pending_muts_after_err: 0,
+            last_muts: vec![],
+            last_pre_commit: BTreeMap::new(),
         }
     }
 
@@ -398,10 +405,25 @@ impl Sim {
         m
     }
 
+    /// Crash between prepare() and commit(): the local store as it was before the commit, plus the
+    /// mutations that prepare() reported (they are what the cloud holds and what is re-applied).
+    pub fn restore_shadow_crash(&self) -> Result<Arc<Node>, String> {
+        let mut m = self.last_pre_commit.clone();
+        for (k, vv) in &self.last_muts {
+            m.insert(k.clone(), vv.clone());
+        }
+        let kvvs: Vec<KVV> = m.into_iter().map(|(k, vv)| KVV(k, vv)).collect();
+        self.restore_from(kvvs)
+    }
+
     /// Restore a second node from a copy of the store alone.
     pub fn restore_shadow(&self) -> Result<Arc<Node>, String> {
-        let store2 = MemoryKVVStore::new([7u8; 16]);
         let kvvs: Vec<KVV> = self.persister.0.get_prefix("").unwrap().collect();
+        self.restore_from(kvvs)
+    }
+
+    fn restore_from(&self, kvvs: Vec<KVV>) -> Result<Arc<Node>, String> {
+        let store2 = MemoryKVVStore::new([7u8; 16]);
         store2.put_batch(kvvs).map_err(|e| format!("{:?}", e))?;
         let p2: Arc<dyn Persist> = Arc::new(KVVPersister(store2, JsonFormat));
         let nodes = p2.get_nodes().map_err(|e| format!("{:?}", e))?;
